@@ -137,6 +137,10 @@ def run(ctx, chk):
              "types): no guard, clamp or second opinion between the stored value and the caller (the count a client reads is the count the rules maintain)")
     import rules as _rg
     _rg.check_field_getters(chk, "C04.getters", prog, eff, names=('cbor_refcount',))
+    chk.rule("C04.signed-compare", "no 64-bit comparison in the library is signed: sizes, lengths, counts, indices and remainders are compared as the unsigned "
+             "quantities they are (an index with the top bit set is refused, not used as a negative offset)")
+    import rules as _rsc
+    _rsc.check_signed_compare(chk, "C04.signed-compare", prog)
     chk.exhaustive = True
 
 
